@@ -15,10 +15,48 @@ class C10(Property):
     partial = ["C10_nested (help of the innermost command, whatever else fails) holds only with the provisos proved in "
                "Props/C10.v; the two refuted shapes are known findings"]
 
+    @staticmethod
+    def conflict_family(rng, k):
+        """Items of two different alternatives of one choice on the line (a conflict), the request to their right."""
+        names = gen.Names(rng, unicode_ok=False)
+        alts = [gen.req_flag(names.named(help_p=0.0), gen.vnum(100 + i)) if rng.random() < 0.7 else gen.arg(names.named(help_p=0.0), "V", "string")
+                for i in range(rng.choice([2, 3]))]
+        choice = gen.alt(*alts)
+        if rng.random() < 0.4:
+            choice = gen.wrap("optional", choice)
+        level = gen.con(gen.flag(names.named(help_p=0.0)), choice)
+        ver = "3.1" if rng.random() < 0.6 else None
+        if rng.random() < 0.5:
+            opts = gen.options(level, descr="Lc0", version=ver)
+            pre, lvl, o = [], 0, opts
+        else:
+            sub = gen.options(level, descr="Lc1", version=ver)
+            cn = names.cmdname()
+            opts = gen.options(gen.con(gen.flag(names.named(help_p=0.0)), gen.cmd(cn, sub, help="c")), descr="Lc0")
+            pre, lvl, o = [cn.encode()], 1, sub
+        a, b = rng.sample(alts, 2)
+        def occ(x, i):
+            return [gen.spell_flag(rng, x)] if x["k"] == "flag" else gen.spell_arg(rng, x, b"v%d" % i)[1]
+        line = pre + occ(a, 0) + occ(b, 1)
+        out = [Case("g%dzb" % k, opts, line, tags={"role": "base", "group": "g%dz" % k})]
+        for j, what in enumerate(["help", "help", "version"]):
+            if what == "version" and ver is None:
+                continue
+            item = rng.choice([b"--help", b"-h"]) if what == "help" else rng.choice([b"--version", b"-V"])
+            tail = [item] + ([item] if what == "help" and rng.random() < 0.2 else [])
+            out.append(Case("g%dz%d" % (k, j), opts, line + tail,
+                            tags={"role": what, "valid": False, "group": "g%dz" % k, "level": lvl, "marker": o["descr"],
+                                  "has_version": ver is not None, "version": ver, "adj": False}))
+        return out
+
     def generate(self, rng, tier, n):
         cases = []
         k = 0
         while len(cases) < n:
+            if rng.random() < 0.05:
+                cases.extend(self.conflict_family(rng, k))
+                k += 1
+                continue
             opts, names = gen.gen_options(rng, features=rng.choice([("alt", "cmd", "pos"), ("alt", "cmd", "pos", "adj"), ("pos",)]),
                                           allow_catch=False)
             has_version = lambda o: o["version"] is not None
